@@ -159,6 +159,29 @@ def run(F, R, tier):
                 "processed like a valid one (%s)" % detail)
 
     # ------------------------------------------------------------------ R2 in loop_poll
+    # one status document updates all three endpoints: an iteration that runs one endpoint's rule-id update runs the other two as well
+    # (no short-circuit between them: `a().await || b().await` skips b once a reports a change)
+    upd_blocks = {}
+    for bi, w, r, t in B.calls:
+        s_ = short(r or w or "")
+        if w != mir.POLL and s_.startswith("update_") and s_.endswith("_rule_id") and "KeyKeeperSharedState" in (r or w or ""):
+            upd_blocks.setdefault(endpoint_of(s_), []).append(bi)
+    for a_ep, a_bl in sorted(upd_blocks.items()):
+        for b_ep, b_bl in sorted(upd_blocks.items()):
+            if a_ep == b_ep or not a_ep or not b_ep:
+                continue
+            for ab in a_bl:
+                hdr_ = q.outer_loop_header(B, ab)
+                if hdr_ is None:
+                    continue
+                p_in = B.path([hdr_], [ab], cut_blocks=b_bl)
+                p_out = B.path([tg for tg, _ in B.succ(ab)], [hdr_], cut_blocks=b_bl)
+                R.check(p_in is None or p_out is None, "C09.R2", "C09.R2:%s:%s-update-implies-%s-update" % (LP, a_ep, b_ep), q.where(B, ab),
+                        "an iteration that updates the %s rule id also updates the %s rule id" % (a_ep, b_ep),
+                        "an iteration can update the %s rule id and go on to the next poll without looking at the %s rule id of the same "
+                        "status document (short-circuit / early exit between the endpoints): %s keeps the previous document's rules"
+                        % (a_ep, b_ep, b_ep), witness={"path_lines": B.path_lines(p_out)} if p_out else None)
+    R.floor("C09.R2", len(upd_blocks), 3, "endpoints whose rule id is updated in loop_poll")
     for bi, w, r, t in B.calls:
         if w == mir.POLL:
             continue
@@ -180,15 +203,25 @@ def run(F, R, tier):
                     "%s receives status.%s()" % (s, "/".join(sorted(src))), "%s receives %s" % (s, sorted(map(str, org))))
             # guarded by the `updated` flag of the same endpoint's rule-id update
             guards = []
+            hdr_ = q.outer_loop_header(B, bi)
             for sb in B.switch_blocks():
                 e, tr, fa = B.truth_edges(sb)
+                opnd = None
                 if e[0] == "op" and e[1]["k"] in ("copy", "move"):
-                    for o in B.origins(e[1]):
-                        if o[0] == "call" and short(o[1]).startswith("update_") and short(o[1]).endswith("_rule_id") and o[3][-1:] == ("0",):
+                    opnd = e[1]
+                elif e[0] == "call" and mir.closure_comb(e[1]):
+                    # `result.map(|(updated, _)| updated).unwrap_or_else(|_| false)`: the flag read through Option/Result combinators
+                    opnd = {"k": "copy", "p": B.blocks[e[3]]["term"]["dest"]}
+                if opnd is None:
+                    continue
+                for o in B.origins(opnd):
+                    if o[0] == "call" and short(o[1]).startswith("update_") and short(o[1]).endswith("_rule_id") and o[3][-1:] == ("0",):
+                        # a test of the flag that leads to this call within the iteration (other reads of the flag, e.g. OR-ing the three
+                        # flags into "something changed", guard nothing)
+                        if bi in B.reach([tr[1]], cut_blocks=[hdr_] if hdr_ is not None else ()):
                             guards.append((endpoint_of(short(o[1])), tr))
             mine = [g[1] for g in guards if g[0] == ep]
             # ... and on that edge it is always called (also when the new document carries no rules: "none" must be installed too)
-            hdr_ = q.outer_loop_header(B, bi)
             for e_ in mine:
                 p2 = B.path([e_[1]], [hdr_] if hdr_ is not None else B.return_blocks(), cut_blocks=[bi])
                 R.check(p2 is None, "C09.R2", "C09.R2:%s:%s-always-on-updated-edge" % (LP, s), q.where(B, e_[0]),
